@@ -818,7 +818,16 @@ pub fn gen_image<C: Col>(rng: &mut Rng, max_w: u32, max_h: u32) -> Desc {
     Desc::Image(ImageD { w, h, data, at: (rng.i32r(-12, 40), rng.i32r(-12, 40)), big_endian: rng.chance(1, 2), subs })
 }
 
-pub const STRINGS: [&str; 14] = ["", "a", "Ag", "a\nbc", "\n", "ab\n", "a\r\nb", "\u{7f}\u{1}x", "Hello, World!", "jgQ|_^", "  x  ", "A\n\nBC", "\u{fffd}\u{1F600}z", "line1\nl2\r\nthird line"];
+pub const STRINGS: [&str; 17] = ["", "a", "Ag", "a\nbc", "\n", "ab\n", "a\r\nb", "\u{7f}\u{1}x", "Hello, World!", "jgQ|_^", "  x  ", "A\n\nBC", "\u{fffd}\u{1F600}z", "line1\nl2\r\nthird line", "\u{feff}AB", "x\n\u{feff}y\u{10ffff}", "\u{200b}\u{e0001}"];
+
+/// Characters that text-processing code tends to treat specially (byte order mark, zero-width and
+/// bidi marks, line/paragraph separators, NEL, soft hyphen, non-characters, the code points next to the
+/// surrogate gap and at the plane boundaries). To this library they are ordinary characters - mapped
+/// or, in every built-in font, unmapped (seeded `C15-14`: a leading U+FEFF stripped by `Text`).
+pub const SPECIAL_CHARS: [char; 22] = [
+    '\u{feff}', '\u{200b}', '\u{200e}', '\u{2028}', '\u{2029}', '\u{85}', '\u{ad}', '\u{a0}', '\u{fffe}', '\u{ffff}', '\u{d7ff}', '\u{e000}', '\u{10000}', '\u{3ffff}', '\u{40000}', '\u{e0001}',
+    '\u{10ffff}', '\u{b}', '\u{c}', '\u{1b}', '\u{7ff}', '\u{800}',
+];
 
 pub fn gen_deco(rng: &mut Rng) -> DecoD {
     match rng.below(4) {
@@ -879,6 +888,24 @@ pub fn gen_string(rng: &mut Rng) -> String {
             _ => char::from_u32(rng.u32r(0x21, 0x7E)).unwrap(),
         };
         s.push(c);
+    }
+    // special characters at the places where text code looks for them: the very beginning, the
+    // beginning of a line, the end
+    if rng.chance(1, 6) {
+        let mut t = String::new();
+        if rng.chance(1, 2) {
+            t.push(*rng.pick(&SPECIAL_CHARS));
+        }
+        for c in s.chars() {
+            t.push(c);
+            if c == '\n' && rng.chance(1, 3) {
+                t.push(*rng.pick(&SPECIAL_CHARS));
+            }
+        }
+        if rng.chance(1, 3) {
+            t.push(*rng.pick(&SPECIAL_CHARS));
+        }
+        s = t;
     }
     // a carriage return is either line content (an unmapped character) or the first half of a CR LF
     // line ending; what a CR at the very end of the text means is not fixed by any statement, so
